@@ -867,12 +867,21 @@ static void sweep_run(uint64_t idx, vh_rng_t * rng) {
 static uint64_t cascade_count(int thorough) { return vh_scaled(thorough ? 40000 : 4000); }
 static void cascade_run(uint64_t idx, vh_rng_t * rng) {
     static const scpi_reg_name_t writable[] = { USER_REG_QUES_VOLT, USER_REG_QUES_VOLTE, USER_REG_QUES_VOLTC, USER_REG_OPER_SUB, USER_REG_OPER_SUBE,
-        SCPI_REG_QUESE, SCPI_REG_OPERE, SCPI_REG_SRE, SCPI_REG_QUES, SCPI_REG_OPER, SCPI_REG_ESE };
-    static const char * const wname[] = { "QUES:VOLT", "QUES:VOLT:ENAB", "QUES:VOLT:COND", "OPER:SUB", "OPER:SUB:ENAB", "QUESE", "OPERE", "SRE", "QUES", "OPER", "ESE" };
+        SCPI_REG_QUESE, SCPI_REG_OPERE, SCPI_REG_SRE, SCPI_REG_QUES, SCPI_REG_OPER, SCPI_REG_ESE
+#ifdef VH_CUSTREG_FILTERS
+        /* a group whose condition register feeds its event register through positive / negative transition filter registers */
+        , USER_REG_QUES_CURRC, USER_REG_QUES_CURRC, USER_REG_QUES_CURRP, USER_REG_QUES_CURRN, USER_REG_QUES_CURR, USER_REG_QUES_CURRE
+#endif
+    };
+    static const char * const wname[] = { "QUES:VOLT", "QUES:VOLT:ENAB", "QUES:VOLT:COND", "OPER:SUB", "OPER:SUB:ENAB", "QUESE", "OPERE", "SRE", "QUES", "OPER", "ESE",
+        "QUES:CURR:COND", "QUES:CURR:COND", "QUES:CURR:PTR", "QUES:CURR:NTR", "QUES:CURR", "QUES:CURR:ENAB" };
     vh_ctx_t * v = (g_no_error_cb = (idx % 4 == 1), new_ctx(2)); scpi_t * c = v->ctx; int step; vh_buf_t hist = { 0, 0, 0 };
     (void) idx;
     for (step = 0; step < 120; step++) {
-        int k = (int) vh_below(rng, 11); scpi_reg_val_t val = (scpi_reg_val_t) (vh_chance(rng, 1, 2) ? (1u << vh_below(rng, 16)) | (vh_below(rng, 2) ? 0x0001 : 0) | (vh_below(rng, 2) ? 0x0200 : 0) : vh_rand(rng));
+        int k = (int) vh_below(rng, (uint32_t) (sizeof writable / sizeof writable[0])); scpi_reg_val_t val = (scpi_reg_val_t) (vh_chance(rng, 1, 2) ? (1u << vh_below(rng, 16)) | (vh_below(rng, 2) ? 0x0001 : 0) | (vh_below(rng, 2) ? 0x0200 : 0) | (vh_below(rng, 2) ? 0x0002 : 0) : vh_rand(rng));
+#ifdef VH_CUSTREG_FILTERS
+        scpi_reg_val_t b_currc = SCPI_RegGet(c, USER_REG_QUES_CURRC), b_curr = SCPI_RegGet(c, USER_REG_QUES_CURR), ptr = SCPI_RegGet(c, USER_REG_QUES_CURRP), ntr = SCPI_RegGet(c, USER_REG_QUES_CURRN);
+#endif
         scpi_reg_val_t b_quesc = SCPI_RegGet(c, SCPI_REG_QUESC), b_operc = SCPI_RegGet(c, SCPI_REG_OPERC), b_voltc = SCPI_RegGet(c, USER_REG_QUES_VOLTC), b_stb = SCPI_RegGet(c, SCPI_REG_STB);
         scpi_reg_val_t a_quesc, a_operc, a_voltc, stb, sre;
         if (vh_chance(rng, 1, 4)) val = 0;
@@ -888,6 +897,22 @@ static void cascade_run(uint64_t idx, vh_rng_t * rng) {
         if (((a_quesc & 0x0001) != 0) != ((SCPI_RegGet(c, USER_REG_QUES_VOLT) & SCPI_RegGet(c, USER_REG_QUES_VOLTE)) != 0)) { vh_violation(PROP ":cascade-user-group-summary", "after %s: QUES:COND=0x%04x but QUES:VOLT=0x%04x QUES:VOLT:ENAB=0x%04x (summary bit 0x0001)", vh_buf_cstr(&hist), a_quesc, SCPI_RegGet(c, USER_REG_QUES_VOLT), SCPI_RegGet(c, USER_REG_QUES_VOLTE)); break; }
         if (((a_operc & 0x0200) != 0) != ((SCPI_RegGet(c, USER_REG_OPER_SUB) & SCPI_RegGet(c, USER_REG_OPER_SUBE)) != 0)) { vh_violation(PROP ":cascade-user-group-summary", "after %s: OPER:COND=0x%04x but OPER:SUB=0x%04x OPER:SUB:ENAB=0x%04x (summary bit 0x0200)", vh_buf_cstr(&hist), a_operc, SCPI_RegGet(c, USER_REG_OPER_SUB), SCPI_RegGet(c, USER_REG_OPER_SUBE)); break; }
         if (a_operc & 0x0200) vh_count("cascade.user_group_summarised_in_a_parent_bit_above_7", 1);
+#ifdef VH_CUSTREG_FILTERS
+        if (((a_quesc & 0x0002) != 0) != ((SCPI_RegGet(c, USER_REG_QUES_CURR) & SCPI_RegGet(c, USER_REG_QUES_CURRE)) != 0)) { vh_violation(PROP ":cascade-user-group-summary", "after %s: QUES:COND=0x%04x but QUES:CURR=0x%04x QUES:CURR:ENAB=0x%04x (summary bit 0x0002, group with transition filters)", vh_buf_cstr(&hist), a_quesc, SCPI_RegGet(c, USER_REG_QUES_CURR), SCPI_RegGet(c, USER_REG_QUES_CURRE)); break; }
+#if MON12
+        if (writable[k] == USER_REG_QUES_CURRC) {
+            /* the statement's latch clause, for a group with filter registers: a rising condition bit whose positive transition is enabled must
+             * be latched, and what was latched stays (falling bits through the negative filter: SCPI behaviour the statement does not mention - counted) */
+            scpi_reg_val_t a_currc = SCPI_RegGet(c, USER_REG_QUES_CURRC), a_curr = SCPI_RegGet(c, USER_REG_QUES_CURR), rise = (scpi_reg_val_t) (a_currc & ~b_currc), fall = (scpi_reg_val_t) (b_currc & ~a_currc);
+            if (a_currc != val) { vh_violation(PROP ":condition-write-lost:filtered-user-group", "after %s: QUES:CURR:COND reads 0x%04x", vh_buf_cstr(&hist), a_currc); break; }
+            if ((rise & ptr) & ~a_curr) { vh_violation(PROP ":condition-rise-not-latched:filtered-user-group", "after %s: QUES:CURR:COND 0x%04x -> 0x%04x with PTR=0x%04x NTR=0x%04x, event 0x%04x -> 0x%04x", vh_buf_cstr(&hist), b_currc, a_currc, ptr, ntr, b_curr, a_curr); break; }
+            if (b_curr & ~a_curr) { vh_violation(PROP ":condition-write-drops-latched-event:filtered-user-group", "after %s: QUES:CURR:COND 0x%04x -> 0x%04x, event 0x%04x -> 0x%04x", vh_buf_cstr(&hist), b_currc, a_currc, b_curr, a_curr); break; }
+            if (rise & ptr) vh_count("cascade.rising_bit_latched_through_positive_transition_filter", 1);
+            if (rise & ~ptr & ~b_curr & ~(fall & ntr)) vh_count(((rise & ~ptr) & a_curr & ~b_curr) ? "cascade.rising_bit_with_filter_off_latched.counted_only" : "cascade.rising_bit_with_filter_off_not_latched.counted_only", 1);
+            if (fall & ntr) vh_count((fall & ntr & ~a_curr) ? "cascade.falling_bit_with_negative_filter_not_latched.counted_only" : "cascade.falling_bit_latched_through_negative_filter.counted_only", 1);
+        }
+#endif
+#endif
 #if MON11
         if (((stb & 0x08) != 0) != ((SCPI_RegGet(c, SCPI_REG_QUES) & SCPI_RegGet(c, SCPI_REG_QUESE)) != 0)) { vh_violation(PROP ":cascade-summary-bit3", "after %s: STB=0x%02x QUES=0x%04x QUESE=0x%04x", vh_buf_cstr(&hist), stb, SCPI_RegGet(c, SCPI_REG_QUES), SCPI_RegGet(c, SCPI_REG_QUESE)); break; }
         if (((stb & 0x80) != 0) != ((SCPI_RegGet(c, SCPI_REG_OPER) & SCPI_RegGet(c, SCPI_REG_OPERE)) != 0)) { vh_violation(PROP ":cascade-summary-bit7", "after %s: STB=0x%02x OPER=0x%04x OPERE=0x%04x", vh_buf_cstr(&hist), stb, SCPI_RegGet(c, SCPI_REG_OPER), SCPI_RegGet(c, SCPI_REG_OPERE)); break; }
@@ -931,6 +956,9 @@ int main(int argc, char ** argv) {
     vh_require("c12.sweep.codes");
     vh_require("c12.class.pushes_checked");
     vh_require("c12.latch.condition_writes_with_rising_bits");
+#ifdef VH_CUSTREG_FILTERS
+    vh_require("cascade.rising_bit_latched_through_positive_transition_filter");
+#endif
     vh_require("c12.hold.event_bits_cleared_by_listed_operation");
     vh_require("c12.clear.query_or_cls_checked");
     vh_require("c12.srq.mss_rises");
